@@ -226,10 +226,7 @@ func f47Configs(adversary bool) []f47cfg {
 			}
 		}
 	}
-	maxBits := 7
-	if adversary {
-		maxBits = 4
-	}
+	maxBits := 7 // the field has 6 bits: 5, 6 and 7 bits straddle the bounded / bit-by-bit switch and the field width
 	for n := 1; n <= maxBits; n++ {
 		r = append(r, f47cfg{g: "cmp.IsLessBinary", p: []int{n}}, f47cfg{g: "cmp.IsLessOrEqualBinary", p: []int{n}})
 	}
@@ -406,6 +403,8 @@ func TestF47Adversary(t *testing.T) {
 			e.group(4, 1)
 		case strings.HasSuffix(cfg.g, ".const"):
 			e.group(10, 1)
+		case (cfg.g == "cmp.IsLessBinary" || cfg.g == "cmp.IsLessOrEqualBinary") && cfg.p[0] >= 5:
+			e.group(1<<(2*cfg.p[0]-8), 1<<(2*cfg.p[0]-10))
 		case cfg.g == "sel.Decoder":
 			e.group(2, 1)
 		default:
